@@ -166,7 +166,7 @@ struct ExpEngine: Engine{
       double cap=(cls==0||cls==1||cls==2||cls==8)?1e3:50.0; if(cls==7) cap=20.0; if(norm>cap) norm=cap*r.uniform(0.3,1.0);
       if(r.chance(0.02)) norm=0.0;
       o["norm"]=norm; o["vs"]=(long long)r.below(100000000);
-      o["bitseed"]=(long long)(r.next()>>2); o["bitmode"]=r.chance(0.3)?1:0; o["runmax"]=r.range(1,64);
+      o["bitseed"]=(long long)(r.next()>>2); o["bitmode"]=r.chance(0.3)?1:0; o["runmax"]=r.range(1,64); o["repeat"]=r.chance(0.3);
       o["s"]=r.chance(0.5)?r.uniform(-3,3):std::pow(10.0,r.uniform(-3,2.5))*(r.chance(0.5)?1:-1);
       ops.push(o);
     }
@@ -222,6 +222,16 @@ struct ExpEngine: Engine{
         auto fail=[&](const std::string& cl,const std::string& sig,const std::string& d){ if(out.ok){ out.fail(cl,sig,"op#"+std::to_string(i)+" "+kind+": "+d); out.prop="C07"; } };
         if(res.rc!=CALL_OK){ char b[200]; snprintf(b,sizeof b,"threw \"%s\" for a %ux%u matrix of class %d with 1-norm %.6g",res.what.c_str(),c.n,c.n,cls,n1); fail("exp:threw",kind+":n"+std::to_string(c.n),b); break; }
         if(res.draws>10000){ fail("liveness:draws",kind,"the norm estimator consumed "+std::to_string(res.draws)+" random bits in one call"); break; }
+        // (2a) the same call once more, straight away, with the same estimator bits: whatever the library remembers of the call it has just answered
+        // must not change the answer
+        if(o["repeat"].as_bool(false)){
+          CallResult again; perform(c,again); ncalls++;
+          bool same2=(again.rc==res.rc);
+          if(same2 && c.kind==0) same2=memcmp(&again.X.m[0][0],&res.X.m[0][0],sizeof res.X.m)==0;
+          if(same2 && c.kind>=1) same2=(again.out.size()==res.out.size() && memcmp(&again.out[0],&res.out[0],res.out.size()*sizeof(double))==0);
+          if(!same2){ fail("exp:history-dependent",kind+":repeat","the same call repeated immediately (same estimator bits) gives a different result"); break; }
+          ctr.add("repeat_checked");
+        }
         // (1) accuracy against the quadruple-precision reference
         QM R=qexp(Aexp);
         double u=1.1102230246251565e-16, fa=fro(Aexp), mu=max_herm_eig(Aexp);
